@@ -90,7 +90,7 @@ def fuelOf (l : List KVs) : Nat := (l.map depthKVs).foldl max 0 + 2
 def extrasOf (cs : List (Option Msg)) : List KVs :=
   cs.filterMap (fun c => c.map (·.extra))
 
-/-- case: {"kind":"msgs"|"cmsgs"|"maps"|"strs","chunks":[…],"guard":bool?}
+/-- case: {"kind":"msgs"|"cmsgs"|"maps"|"strs"|"marr","chunks":[…],"guard":bool?}
     msgs  = schema.ConcatMessages(chunks)
     cmsgs / maps / strs = compose-level stream concat of *Message / map[string]any / string -/
 def handle (c : Json) : JE Json := do
@@ -106,6 +106,9 @@ def handle (c : Json) : JE Json := do
   | "maps" => do
     let ms ← chunks.mapM parseKVs
     pure (renderRes (fun m => renderX (.map m)) (concatMapChunks cfg (fuelOf ms) ms))
+  | "marr" => do
+    let arrs ← chunks.mapM (fun a => do (← J.asArr a).mapM parseMsg)
+    pure (renderRes (fun r => J.mkArr (r.map renderMsg)) (concatArrChunks cfg (fuelOf (extrasOf arrs.flatten)) arrs))
   | "strs" => do
     let ss ← chunks.mapM J.asStr
     pure (renderRes Json.str (concatStrChunks cfg ss))
